@@ -39,6 +39,29 @@ CLAIMS = {
         "Trusted: CPython ast; yadsa partial evaluator and summaries; algebra.subs; heavy coefficient functions folded above threshold.",
         "DESIGN.md section 3, C13",
     ),
+    "C05": (
+        "end-to-end RGE identity on partially evaluated operators against a solution built by the checker",
+        "Decides: for every cell (kinds x heavyness x NC/CC x five schemes x PTO 1..3 x the four RenScaleVar/FactScaleVar combinations) every "
+        "scale-variation key (k,0,i,j) of the partially evaluated operator equals entry by entry the coefficient of a^k tR^i tF^j in the "
+        "renormalisation-group solution the checker builds from the folded central coefficients, opaque beta0/beta1, eko's sector projectors "
+        "and the DGLAP sector -> splitting-kernel tables written in the checker; a switched-off variation sets exactly its logarithm to zero; "
+        "rows fed by intrinsic kernels carry no factorisation logarithms; registry labels are not cross-wired. NOT decided: regular parts of "
+        "the splitting kernels; factorisation-scale terms at a^3 (outside the property's quantifier, counted).",
+        "Trusted: CPython ast; yadsa partial evaluator; eko.basis_rotation constants; the RGE derivation in rules/c05.py; a registry label "
+        "denotes the kernel it names.",
+        "DESIGN.md section 3, C05",
+    ),
+    "C11": (
+        "normal-form comparison of folded coefficient vectors with the documented formulas; operator combination identity",
+        "Decides: the coefficient vector folded from xs_coeffs_unpolarized/polarized equals, for all x, y, Q2, M_h, M_W, G_F, the documented "
+        "N[1, -yL/y+, (-1)^l y-/y+] up to one documented unit-conversion constant for the ten kinds and four projectiles; no documented kind "
+        "falls through to zero, unknown kinds raise; the partially evaluated operator of each cross section equals for every order key and "
+        "entry that combination of the partially evaluated F2/FL/F3 (g4/gL/g1) operators of the same heavyness in the same configuration, "
+        "with and without TMC and scale variations. NOT decided: numerical values.",
+        "Trusted: CPython ast; yadsa partial evaluator; spec/xs.py transcribed from docs/source/theory/intro.rst (XSFPFCC after the docs fix); "
+        "unit conversions 1, 3.893793e10, 3.893793e8 accepted.",
+        "DESIGN.md section 3, C11",
+    ),
     "C07": (
         "normal-form identities between partially evaluated operators (additivity over parts, heavyness, coupling restrictions)",
         "Decides additivity as polynomial identities between partially evaluated operators, for every order key (scale-variation keys "
